@@ -107,6 +107,26 @@ CHECKS = {
              "correspondence and the content oracle only).",
         technique="Lean 4 proofs about the transcribed __eq__ + differential correspondence on document pairs + content oracle",
         design="§4.C04"),
+    "C07": dict(
+        text="Lean: the PROV-O writer (encode_container: plain triple vs qualified node, blank nodes, the string-matched predicate "
+             "rewrites, Revision/Quotation/PrimarySource retyping, alternate swap, mention) and the reader (decode_container: type pass, triple "
+             "pass with relation_mapper / predicate_mapper and per-kind renamings, creation pass with cartesian expansion, leftover check) "
+             "as executable functions over quads in rdflib's iteration order. Proved: c07_formal_predicates_inverse / _kept (for every kind "
+             "and every formal argument but the first, the reader files the writer's predicate under that argument; whole table, kernel-evaluated); "
+             "c07_user_attr_writer / _reader / _element (for EVERY URI outside the PROV namespace both rewrites are the identity and nothing is "
+             "dropped - false for the substring reader that the fix: commit replaced); c07_int/str/bool/uri/datetime/qname/lang (each value kind "
+             "is written and read back as the same value, the empty language-tagged string included); t_base_classes (the reader's class table is "
+             "PROV_BASE_CLS as regenerated); walk_length (cartesian expansion). Checked against the code in three channels on every run: the quads of "
+             "the real encode_document vs the model's (blank nodes named by content); the real decode_document vs the model's on the same rdflib "
+             "graph in the iteration order observed; TriG text written, parsed and decoded vs unified() by strict URI-level content.",
+        note=A_COMMON + " Partial: the record- and document-level round trip (decode . encode = unified, for all expressible documents and all "
+             "iteration orders) is NOT a Lean theorem; it is validated by the three channels on generated documents (a quarter of them outside "
+             "the property's space to exercise the error and retyping branches). rdflib (TriG text, literal value conversion, iteration order) "
+             "and dateutil are outside the model: their behaviour is observed per literal and passed in as hints; the function the value theorems "
+             "assume for it (rdflibHint) is compared with the observed hints. Known findings C07-1..3 are inputs inside the stated space on which "
+             "the property fails today.",
+        technique="Lean 4 model + table/for-all-URI theorems; three-channel correspondence (writer quads, reader on rdflib order, end-to-end)",
+        design="§4.C07", category="other"),
     "C08": dict(
         text="Lean: second pass of _unified_records as placeMerged: nothing lost (every source record is represented by itself or by its "
              "merged record), nothing invented, no duplicates, identity when nothing is merged (c08_nothing_lost, c08_nothing_invented, "
